@@ -7,6 +7,9 @@ Reads
     enclosing `if` tests (and which branch) and the text of its argument.  The list must be one of the shapes below
     (HELD has two known shapes: the one that pauses for ever in both branches of state WAITING, and the one that pauses
     until start + duration while still waiting); anything else is untranslatable (fail closed);
+  * for each of the fourteen classes, where `self.eval_args(context)` / `self.args[i].eval(context)` stand relative to the early
+    `return` / `raise` statements (and what is written to the object before an argument is evaluated): ARG_SHAPES, the order
+    C16/ArgModel.v (ostep: SAMPLE evaluates nothing while holding, FREEZE nothing while its timer runs, ...) was written against;
   * the bodies of Expression.pause_asap_eval / is_asap_eval_paused / eval (base.py) and the skip rule of
     main.handle_value_changes, which must have exactly the text the model (C16/Model.v: deadline, is_paused, loop_pauses)
     was written against.
@@ -62,6 +65,35 @@ PAUSE_SHAPES = {
     },
 }
 
+EAGER = [('args', ()), ('return', ())]
+_SKIPS = lambda first: [('args', ()),                                                      # noqa: E731
+                        ('raise', ((first, T), ('delta < sampling_interval', T))),
+                        ('raise', ((first, T), ('delta > TIME_JUMP_THRESHOLD', T))),
+                        ('return', ())]
+_FZ_IDLE, _FZ_CHG = ('self._last_time_ms == 0', T), ('value != self._last_value', T)
+_FZ_EXP = (('self._last_time_ms == 0', F), ('context.now_ms - self._last_time_ms > self._last_duration_ms', T))
+# order of argument evaluation relative to the early exits (and to what is written before an argument is evaluated);
+# C16/ArgModel.v (ostep) was written against exactly these shapes
+ARG_SHAPES = {
+    'timeprocessing.py': {
+        'DelayFunction': EAGER,
+        'SampleFunction': [('return', (('context.now_ms - self._last_time_ms < self._last_duration_ms', T),)), ('args', ()), ('return', ())],
+        'FreezeFunction': [('arg', 0, (_FZ_IDLE,)), ('write', '_last_time_ms', (_FZ_IDLE, _FZ_CHG)), ('arg', 1, (_FZ_IDLE, _FZ_CHG)),
+                           ('recurse', _FZ_EXP), ('return', _FZ_EXP), ('return', ())],
+        'HeldFunction': EAGER,
+        'DerivFunction': _SKIPS('self._last_value is not None'),
+        'IntegFunction': _SKIPS('self._last_value is not None'),
+        'FMAvgFunction': _SKIPS('self._last_time_ms > 0'),
+        'FMedianFunction': _SKIPS('self._last_time_ms > 0'),
+    },
+    'various.py': {
+        'RisingFunction': [('arg', 0, ()), ('return', ())],
+        'FallingFunction': [('arg', 0, ()), ('return', ())],
+        'AccFunction': EAGER, 'AccIncFunction': EAGER, 'HystFunction': EAGER,
+        'SequenceFunction': [('write', '_last_time_ms', (('self._last_time_ms == 0', T),)), ('args', ()), ('return', ())],
+    },
+}
+
 BASE_BODIES = {
     'pause_asap_eval': 'self._asap_eval_paused_until_ms = pause_until_ms or int(10000000000000.0)',
     'is_asap_eval_paused': 'return now_ms < self._asap_eval_paused_until_ms',
@@ -100,6 +132,67 @@ def _pause_calls(fn):
     if total != len(found):
         raise Untranslatable('%d uses of pause_asap_eval, %d recognised' % (total, len(found)))
     return found
+
+
+def _arg_events(fn):
+    """the order of argument evaluation relative to the early exits of an `_eval` body:
+    [('args', path)] for `self.eval_args(context)`, [('arg', i, path)] for `self.args[i].eval(context)`,
+    ('return', path) / ('raise', path) / ('recurse', path) for the exits; path = enclosing if tests with their branch
+    (loops add ('loop', True)).  Any other use of `self.args` is not a known shape."""
+    events = []
+
+    def scan_expr(node, path):
+        n_args = 0
+        for x in ast.walk(node):
+            if isinstance(x, ast.Call) and isinstance(x.func, ast.Attribute):
+                f = x.func
+                if f.attr == 'eval_args' and isinstance(f.value, ast.Name) and f.value.id == 'self':
+                    events.append(('args', tuple(path)))
+                elif (f.attr == 'eval' and isinstance(f.value, ast.Subscript) and isinstance(f.value.value, ast.Attribute)
+                      and f.value.value.attr == 'args' and isinstance(f.value.slice, ast.Constant)):
+                    events.append(('arg', f.value.slice.value, tuple(path)))
+                    n_args += 1
+                elif f.attr == '_eval' and isinstance(f.value, ast.Name) and f.value.id == 'self':
+                    events.append(('recurse', tuple(path)))
+            if isinstance(x, ast.Attribute) and x.attr == 'args' and isinstance(x.value, ast.Name) and x.value.id == 'self':
+                n_args -= 1
+        if n_args != 0:
+            raise Untranslatable('self.args used other than as self.args[<const>].eval(...)')
+
+    def walk(stmts, path):
+        for st in stmts:
+            if isinstance(st, ast.If):
+                scan_expr(st.test, path)
+                t = ast.unparse(st.test)
+                walk(st.body, path + [(t, T)])
+                walk(st.orelse, path + [(t, F)])
+            elif isinstance(st, (ast.While, ast.For)):
+                scan_expr(st.test if isinstance(st, ast.While) else st.iter, path)
+                walk(st.body, path + [('loop', T)])
+                walk(st.orelse, path + [('loop', F)])
+            elif isinstance(st, ast.Return):
+                if st.value is not None:
+                    scan_expr(st.value, path)
+                events.append(('return', tuple(path)))
+            elif isinstance(st, ast.Raise):
+                events.append(('raise', tuple(path)))
+            elif isinstance(st, (ast.Assign, ast.AugAssign, ast.AnnAssign, ast.Expr)):
+                scan_expr(st, path)
+                targets = st.targets if isinstance(st, ast.Assign) else [getattr(st, 'target', None)]
+                for tg in targets:
+                    for x in (ast.walk(tg) if tg is not None else []):
+                        if isinstance(x, ast.Attribute) and isinstance(x.value, ast.Name) and x.value.id == 'self' \
+                                and isinstance(x.ctx, ast.Store):
+                            events.append(('write', x.attr, tuple(path)))
+            elif isinstance(st, (ast.Break, ast.Continue, ast.Pass)):
+                pass
+            else:
+                raise Untranslatable('statement %s in _eval' % type(st).__name__)
+    walk(fn.body, [])
+    # what is written to the object BEFORE an argument is evaluated matters (it stays written when the argument fails);
+    # writes after the last argument evaluation do not
+    last = max([i for i, e in enumerate(events) if e[0] in ('args', 'arg')], default=-1)
+    return [e for i, e in enumerate(events) if e[0] != 'write' or i < last]
 
 
 def _int_const(node, what):
@@ -147,6 +240,20 @@ def read():
             if n is not fns[0] and any(isinstance(x, ast.Attribute) and x.attr in ('pause_asap_eval', '_asap_eval_paused_until_ms')
                                        for x in ast.walk(n)):
                 raise Untranslatable('%s: pause used outside _eval' % cname)
+    for fname, shapes_by_class in ARG_SHAPES.items():
+        with open(repo.path('qtoggleserver/core/expressions/' + fname)) as f:
+            t2 = ast.parse(f.read())
+        cl2 = {n.name: n for n in t2.body if isinstance(n, ast.ClassDef)}
+        for cname, want in shapes_by_class.items():
+            if cname not in cl2:
+                raise Untranslatable('class %s not found' % cname)
+            fns = [n for n in cl2[cname].body if isinstance(n, ast.AsyncFunctionDef) and n.name == '_eval']
+            if len(fns) != 1:
+                raise Untranslatable('%s._eval not found' % cname)
+            got = _arg_events(fns[0])
+            if got != want:
+                raise Untranslatable('%s._eval: arguments are evaluated in an unknown order relative to the early exits: %r'
+                                     % (cname, got))
     consts = {
         'time_jump_threshold': thr,
         'delay_history_size': _class_const(classes['DelayFunction'], 'HISTORY_SIZE'),
